@@ -258,6 +258,8 @@ pub fn run(report: &Report, thorough: bool) -> Evidence {
                 if !o.is_phonetic() && (idx / cfgs.len()) % 2 == 1 {
                     return; // the store only exists in phonetic mode
                 }
+                // the walks with the learned store go one level less deep (the learned words are short)
+                let depth = if (idx / cfgs.len()) % 2 == 1 && depth > 2 { depth - 1 } else { depth };
                 o.xdg = xdg.clone();
                 let mut o_on = o.clone();
                 o_on.smart = true;
